@@ -870,6 +870,20 @@ asn1c_lang_C_type_SEx_OF(arg_t *arg) {
 		(arg->expr->expr_type == ASN_CONSTR_SEQUENCE_OF));
 }
 
+/*
+ * A named SEQUENCE OF / SET OF type with constraints of its own (SIZE) gets
+ * a <Type>_constraint() function. Anonymous (inline) ones are checked by
+ * the member-level checker of the component they define.
+ */
+static int
+SEx_OF_has_own_checker(arg_t *arg, asn1p_expr_t *expr) {
+	return (expr->expr_type == ASN_CONSTR_SEQUENCE_OF
+			|| expr->expr_type == ASN_CONSTR_SET_OF)
+		&& !arg->embed
+		&& !(arg->flags & A1C_NO_CONSTRAINTS)
+		&& expr->combined_constraints;
+}
+
 static int
 asn1c_lang_C_type_SEx_OF_def(arg_t *arg, int seq_of) {
 	asn1p_expr_t *expr = arg->expr;
@@ -932,6 +946,30 @@ asn1c_lang_C_type_SEx_OF_def(arg_t *arg, int seq_of) {
 		}
 	);
 	OUT("};\n");
+
+	/*
+	 * Constraint checking code of the type itself (SIZE),
+	 * followed by the validation of the inner elements.
+	 */
+	if(SEx_OF_has_own_checker(arg, expr)) {
+		const char *p = MKID(expr);
+		REDIR(OT_FUNC_DECLS);
+		OUT("asn_constr_check_f %s_constraint;\n", p);
+		REDIR(OT_CODE);
+		OUT("int\n");
+		OUT("%s_constraint(const asn_TYPE_descriptor_t *td, const void *sptr,\n", p);
+		INDENT(+1);
+		OUT("\t\tasn_app_constraint_failed_f *ctfailcb, void *app_key) {");
+		OUT("\n");
+		if(asn1c_emit_constraint_checking_code(arg) == 1) {
+			OUT("return %s_constraint(td, sptr, ctfailcb, app_key);\n",
+				seq_of ? "SEQUENCE_OF" : "SET_OF");
+		}
+		INDENT(-1);
+		OUT("}\n");
+		OUT("\n");
+		REDIR(OT_STAT_DEFS);
+	}
 
 	/*
 	 * Emit asn_DEF_xxx table.
@@ -3072,6 +3110,8 @@ emit_type_DEF(arg_t *arg, asn1p_expr_t *expr, enum tvm_compat tv_mode, int tags_
 		} else {
 			if (!expr->combined_constraints)
 				FUNCREF2(constraint);
+			else if(SEx_OF_has_own_checker(arg, expr))
+				OUT("%s_constraint", expr_id);
 			else
 				FUNCREF(constraint);
 		}
